@@ -26,7 +26,8 @@ grep "exit=" $log | tr '\n' ' '; echo
 # run checks on /repo
 git -C /repo apply $src/patch.diff || { echo "cannot apply to /repo"; exit 3; }
 for p in $props; do
-  (cd /verif && timeout 600 ./bin/bxv check --property $p > $out/check-$p.log 2>&1; echo "check $p exit=$? $(grep -c VIOLATION $out/check-$p.log) violations: $(grep VIOLATION $out/check-$p.log | sed 's/.*obligation=//' | head -4 | tr '\n' ';')")
+  (cd /verif && BXV_OUT_BASE=/tmp/tryseed-out-$name timeout 900 ./bin/bxv check --property $p > $out/check-$p.log 2>&1; echo "check $p exit=$? $(grep -c VIOLATION $out/check-$p.log) violations: $(grep VIOLATION $out/check-$p.log | sed 's/.*obligation=//' | head -4 | tr '\n' ';')")
 done
 git -C /repo apply -R $src/patch.diff
 git -C /repo status --short
+rm -rf /tmp/tryseed-out-$name   # evidence and replays of a seeded run never land in /verif/evidence
